@@ -11,11 +11,21 @@ import "strings"
 // such decomposition, so nothing but the stated bounds (and the edge-byte
 // restriction of the "trimmed" class) is excluded.
 func verifPointerLikeInput(maxLines, maxLine int) string {
+	return verifPointerLikeInputT(maxLines, maxLine, true)
+}
+
+// verifPointerLikeInputT: as above; withTrail=false leaves out the trailing
+// white space (for callers that append more content).
+func verifPointerLikeInputT(maxLines, maxLine int, withTrail bool) string {
 	lead := verifNondetString("lead")
-	trail := verifNondetString("trail")
+	trail := ""
+	if withTrail {
+		trail = verifNondetString("trail")
+		verifAssumeClass(trail, "asciiws")
+		verifAssume(len(trail) <= 3)
+	}
 	verifAssumeClass(lead, "asciiws")
-	verifAssumeClass(trail, "asciiws")
-	verifAssume(len(lead) <= 3 && len(trail) <= 3)
+	verifAssume(len(lead) <= 3)
 	n := verifChoose("lines", maxLines+1)
 	core := ""
 	for k := 0; k < n; k++ {
